@@ -93,13 +93,16 @@ Definition ssh_helper : list line :=
     LText (bs "_ret=" ++ q ++ bs "${1:${_ls}:${_ll}}" ++ q);
     LClose ].
 
+(* LC_ALL="C": the script's own locale, so that ${#s} and ${s:a:n} count bytes as Go does *)
+Definition locale_line : line := LAssign (bs "LC_ALL") (RAtom (ALit (bs "C"))).
+
 Definition bash_conv : converter bstate atom :=
   mkConv bstate atom
     (* cv_bool *) (fun b => ALit (if b then bs "1" else bs "0"))
     (* cv_int *) (fun z => ALit (dec_Z z))
     (* cv_string *) (fun v s => (ALit v, s))
     (* cv_empty *) (ALit [])
-    (* program_start *) (fun s => mkB (b_start s ++ [LShebang]) (b_code s) (b_var_counter s) (b_for_counter s) (b_fors s)
+    (* program_start *) (fun s => mkB (b_start s ++ [LShebang; locale_line]) (b_code s) (b_var_counter s) (b_for_counter s) (b_fors s)
                                       (b_funcs s) (b_func_counter s) (b_sah s) (b_sch s) (b_ssh s))
     (* program_end *) (fun s =>
        let extra := (if b_sah s then sah_helper else []) ++ (if b_sch s then sch_helper else []) ++ (if b_ssh s then ssh_helper else []) in
